@@ -3,7 +3,6 @@
 use crate::common::*;
 use crate::ctx::Ctx;
 use crate::keys::Key;
-use crate::oracles::*;
 use crate::spec::*;
 use serde_json::{json, Value};
 use std::cell::RefCell;
